@@ -155,7 +155,10 @@ def entryStep (style : List Char) (st : PState) (nr : Nat) (l : List Char) : PSt
     -- continuation of the pending entry's summary
     let text := l.drop dbl.length
     if okEntrySummaryCont text then { st with pending := some { p with summary := p.summary ++ [text] } }
-    else { st with pending := none, errs := st.errs ++ [⟨nr, 0, l.length, .malformedSummary⟩] }
+    else
+      -- the entry itself may be faulty too (a second open range): that is reported first (fix D19)
+      let st := st.commit
+      { st with errs := st.errs ++ [⟨nr, 0, l.length, .malformedSummary⟩] }
   | _, _ =>
     let st := st.commit
     if !style.isPrefixOf l then
